@@ -1,0 +1,5 @@
+//go:build !verif
+
+package tls
+
+func verifGate(c *Conn, point string) {}
